@@ -24,6 +24,7 @@ def _knobs(rng, *, conc=True):
         "mtime_granularity": rng.choice([None, None, 1.0, 2.0]),
         "clock_slow": rng.random() < 0.4,
         "symlink": rng.random() < 0.1,
+        "gc": rng.choice([None, None, None, 0.02, 0.15]),
     }
 
 
@@ -148,6 +149,11 @@ def plan_c17(seed: int, *, faults=True) -> dict:
         tasks = [[] for _ in range(ntasks)]
         for i, s in enumerate(subs):
             tasks[i % ntasks].append(["eval", agg_idx, s, subj_input[s]])
+            if rng.random() < 0.12:
+                # an interim statistic between evaluations, and sometimes the same subject again
+                tasks[i % ntasks].append(["stat", agg_idx])
+                if rng.random() < 0.5:
+                    tasks[i % ntasks].append(["eval", agg_idx, s, subj_input[s]])
         return [t for t in tasks if t]
 
     for si in range(n_sessions):
